@@ -1947,6 +1947,31 @@ def is_unsigned_zero(e):
     return x[0] == 'const' and x[1] == 0 and len(x) > 3 and x[3] in _UNSIGNED
 
 
+def earlier_operand(fn, a, b):
+    """for two operands with the same roots (`prev = self.capacity(); ..; if prev < self.capacity()`): -1 when a's value is
+    computed by a call in a block that dominates the block of b's call (a is the *earlier* value), 1 for the converse, 0
+    when that cannot be told"""
+    def call_block(e):
+        x = strip(e)
+        hops = 0
+        while x[0] in ('cast', 'un') and hops < 4:
+            x = strip(x[2] if x[0] == 'un' else x[2] if len(x) > 2 and isinstance(x[2], tuple) else x[1])
+            hops += 1
+        if x[0] == 'call' and len(x) > 3 and isinstance(x[3], int):
+            return x[3]
+        return None
+    if fn is None:
+        return 0
+    ba, bb = call_block(a), call_block(b)
+    if ba is None or bb is None or ba == bb:
+        return 0
+    if fn.dominated_by_blocks(bb, [ba]):
+        return -1
+    if fn.dominated_by_blocks(ba, [bb]):
+        return 1
+    return 0
+
+
 def edge_polarity(sw, succs, fn=None):
     """the outcome of the test of `sw` on the edges `succs`, in a form that does not depend on how the test is written:
     'T'/'F' for a boolean, eq/ne/lt/le/gt/ge for a comparison (operands ordered canonically, so `a < b` and `b > a`
@@ -1976,7 +2001,12 @@ def edge_polarity(sw, succs, fn=None):
         if a > b:
             reg = {_ORD_FLIP[x] for x in reg}
         elif a == b and reg not in ({'eq'}, {'lt', 'gt'}):
-            return ''
+            # same roots on both sides: order them as "earlier value, later value" when that can be told
+            o = earlier_operand(fn, c[1], c[2])
+            if o == 0:
+                return ''
+            if o > 0:
+                reg = {_ORD_FLIP[x] for x in reg}
         return _REGION_NAME.get(frozenset(reg), '')
     if sw.kind == 'variant':
         names = set()
